@@ -190,17 +190,18 @@ type folderUpload struct {
 func (fu *folderUpload) FormattedPath() string {
 	pathItemLen := binary.BigEndian.Uint16(fu.PathItemCount[:])
 
-	var pathSegments []string
+	var subPath string
 	pathData := fu.FileNamePath
 
 	// TODO: implement scanner interface instead?
 	for i := uint16(0); i < pathItemLen; i++ {
-		segLen := pathData[2]
-		pathSegments = append(pathSegments, string(pathData[3:3+segLen]))
+		segLen := int(pathData[2])
+		// Join each client-supplied segment under a leading "/" so ".." cannot climb out of the upload folder.
+		subPath = filepath.Join("/", subPath, string(pathData[3:3+segLen]))
 		pathData = pathData[3+segLen:]
 	}
 
-	return filepath.Join(pathSegments...)
+	return strings.TrimPrefix(subPath, "/")
 }
 
 type FileHeader struct {
